@@ -20,6 +20,8 @@ import (
 	"verif/lib/qt"
 )
 
+var stateCap int64 = 600000
+
 type replayCase struct {
 	History []qt.Op `json:"history"`
 }
@@ -575,6 +577,11 @@ func bfs(r *ev.Run, p *ev.Part, n int, maxDepth int) {
 		}
 		level = next
 		depth++
+		// A tree whose code keeps a drifting field (a counter that is not restored, say) has no finite closure:
+		// stop once the verdict is settled, or at 40x the number of states the unchanged tree has.
+		if p.Settled() || states > stateCap {
+			break
+		}
 		if len(next) > 0 {
 			p.MaxDepth = int64(depth)
 		}
@@ -631,6 +638,7 @@ func main() {
 		"negative k is not exercised",
 	}
 	nq, nt := 7, 8
+	stateCap = 600000
 	n := ev.Pick(r, nq, nt)
 	part := fmt.Sprintf("bfs-closure-%dp", n)
 	if r.Replaying() {
